@@ -32,7 +32,7 @@ func init() {
 			"each written by oj.JSON, oj.Marshal, oj.Write, oj.Writer.JSON/MustJSON/Write, pretty.JSON, pretty.WriteJSON, pretty.Writer.Encode/Marshal/Write under the option lattice " +
 			"{Tab, Sort, OmitNil, OmitEmpty, HTMLUnsafe} x Indent {0,1,2,3,8,200} x WriteLimit {1,2,3,5,8,17,64,1024} x pretty {Width 1/20/40/80/200, MaxDepth 1/2/3/9, Align}; the text must be valid per R, decode (D) to E(options, tree), " +
 			"stream byte-for-byte like the in-memory call, be deterministic and ascending under Sort, and contain no raw < > & unless HTMLUnsafe and no raw U+2028/9. " +
-			"non-trivial: a tree with at least one container member; distinct by digest of (tree, writer family)",
+			"also table-like data whose columns hold cells of mixed kinds (leaf, list, object), rows as objects or as lists, for the aligned pretty writer. non-trivial: a tree with at least one container member; distinct by digest of (tree, writer family)",
 		Assumptions: []string{
 			"under OmitEmpty object members holding a zero scalar (0, 0.0, false) are don't-care: the Options comment mentions 'zero values', the statement does not",
 			"FloatFormat is left at its default",
